@@ -29,11 +29,12 @@ export Pkgcore.Generated.C03 (Opts)
 /-- the `eapi` argument: `none` = not given (`"-1"`), `some n` = EAPI `n` -/
 abbrev Eapi := Option Nat
 
-/-- `eapi_mod.get_eapi(eapi if eapi != "-1" else LATEST_PMS_EAPI_VER).options`; an EAPI that is not registered
-gets the defaults of `eapi_optionals` -/
+/-- `eapi_mod.get_eapi(eapi if eapi != "-1" else LATEST_PMS_EAPI_VER).options`.  For an EAPI that is not
+registered (not in the generated table) the real constructor raises `AttributeError` at the first gate it consults;
+such EAPIs are outside the property (0–9 and "not given") and the all-`false` record here is only a filler. -/
 def optsOf : Eapi → Opts
   | none => Generated.C03.latestOpts
-  | some n => (Generated.C03.eapiOpts.lookup n).getD Generated.C03.defaultOpts
+  | some n => (Generated.C03.eapiOpts.lookup n).getD ⟨false, false, false, false, false⟩
 
 /-- `eapi == "-1"`: the only case in which `::repo` is not refused -/
 def repoAllowed : Eapi → Bool
